@@ -209,3 +209,28 @@ def two_d(a):
             except ValueError:
                 pass
     return bool(msgs), '; '.join(sorted(set(msgs))[:3]) if msgs else 'ntv2_2d applies the shifts with the documented signs'
+
+
+def selection3(a):
+    """three nested sub-grids on real files: every assignment of three names to the three levels (so that whatever the hash seed,
+    some file makes the set of candidate names iterate in each order); each level stores a field offset by 1000 x level"""
+    import itertools
+    from checks import c17
+    from geodepy.ntv2reader import read_ntv2_file, interpolate_ntv2
+    msgs = []
+    for names in itertools.permutations(('AAAA', 'BBBB', 'CCCC')):
+        parent = c17.shape(names[0], 0, 0, 3600, 3600, 5, 5)
+        mid = c17.shape(names[1], 3600, 3600, 1800, 1800, 5, 5, names[0])
+        child = c17.shape(names[2], 3600, 3600, 900, 900, 5, 5, names[1])
+        lev = {names[0]: 0, names[1]: 1, names[2]: 2}
+        for order in ((parent, mid, child), (child, parent, mid), (mid, child, parent)):
+            with tmpdir() as d:
+                p = os.path.join(d, 's3.gsb')
+                write_gsb(p, [_flat(s, (lambda k: (lambda r, c: (1000.0 * k + r + 2 * c, 0.5, 0.0, 0.0)))(lev[s['name']])) for s in order])
+                g = read_ntv2_file(p)
+                for (la, lo) in ((4000, 4000), (6000, 6500), (7000, 3700)):
+                    r = interpolate_ntv2(g, la / 3600, lo / -3600, 'bilinear')
+                    if r[0] is None or not (2000 <= r[0] < 3000):
+                        msgs.append('point (%r, %r), levels named %s, file order %s: answered with %r, not from the finest of three nested sub-grids'
+                                    % (la, lo, list(names), [s['name'] for s in order], r[0]))
+    return bool(msgs), '; '.join(msgs[:2]) if msgs else 'finest of three nested sub-grids used for every naming and file order'
